@@ -52,25 +52,39 @@ FamSpan == [Base EXCEPT
   !.kinds = {"openconn", "setpeer", "reserve", "release", "beginspan", "done", "gc"}]
 
 \* ---- connections / fd / subnets / SetPeer ------------------------------------------------------
-\* a1, a2: two addresses of one /24 (caps: 2 per /32, 2 per /24); b1: allow-listed network (its own
-\* prefix limit = allow-listed system connection limit, registered by NewResourceManager); v6: an
-\* IPv6 address (caps 1 per /56, 2 per /48); n0: no IP
-ConnEps == {"a1", "a2", "b1", "v6", "n0"}
+\* direction x fd x SetPeer against system / transient / peer / connection limits; a1 carries an IP
 FamConn == [Base EXCEPT
   !.conns = <<"c1", "c2", "c3">>, !.peers = {"p1", "p2"},
-  !.eps = ConnEps, !.epip = [e \in ConnEps |-> e # "n0"],
-  !.epb = ("a1" :> {"a1/32", "a/24"}) @@ ("a2" :> {"a2/32", "a/24"}) @@ ("b1" :> {"np:b1"}) @@
-          ("v6" :> {"v6/56", "v6/48"}) @@ ("n0" :> {}),
-  !.cap = ("a1/32" :> 2) @@ ("a2/32" :> 2) @@ ("a/24" :> 2) @@ ("np:b1" :> 1) @@ ("v6/56" :> 1) @@ ("v6/48" :> 2),
-  !.allownet = {"b1"},
+  !.eps = {"a1", "n0"}, !.epip = [e \in {"a1", "n0"} |-> e # "n0"],
+  !.epb = ("a1" :> {"a1/32"}) @@ ("n0" :> {}), !.cap = ("a1/32" :> 2),
   !.lim = ("sys" :> LR(INF, 9, 9, 9, 2, 1, 2, 1)) @@ ("trans" :> LR(INF, 9, 9, 9, 1, 1, 1, 1)) @@
-          ("asys" :> LR(INF, 9, 9, 9, 1, 1, 1, 1)) @@ ("atrans" :> LR(INF, 9, 9, 9, 1, 1, 1, 1)) @@
           ("peer:p1" :> LR(INF, 9, 9, 9, 1, 1, 1, 1)) @@ ("peer:p2" :> LR(INF, 9, 9, 9, 2, 2, 2, 2)) @@
           ("conn" :> LR(INF, 9, 9, 9, 1, 1, 1, 1)) @@ ("stream" :> Open),
   !.dirs = {"in", "out"}, !.fds = {FALSE, TRUE},
   !.kinds = {"openconn", "setpeer", "done", "gc"}]
-\* the printed relative: fewer endpoints
-FamConnP == [FamConn EXCEPT !.eps = {"a1", "a2", "b1", "n0"}]
+\* a1, a2: two addresses of one /24 (caps: 2 per /32, 2 per /24); v6, v7: two IPv6 addresses of one /48
+\* in different /56 (caps 1 per /56, 2 per /48); n0: no IP
+SubEps == {"a1", "a2", "v6", "v7", "n0"}
+FamSubnet == [Base EXCEPT
+  !.conns = <<"c1", "c2", "c3">>, !.peers = {"p1"},
+  !.eps = SubEps, !.epip = [e \in SubEps |-> e # "n0"],
+  !.epb = ("a1" :> {"a1/32", "a/24"}) @@ ("a2" :> {"a2/32", "a/24"}) @@
+          ("v6" :> {"v6/56", "v/48"}) @@ ("v7" :> {"v7/56", "v/48"}) @@ ("n0" :> {}),
+  !.cap = ("a1/32" :> 2) @@ ("a2/32" :> 2) @@ ("a/24" :> 2) @@ ("v6/56" :> 1) @@ ("v7/56" :> 1) @@ ("v/48" :> 2),
+  !.lim = ("sys" :> LR(INF, 9, 9, 9, 9, 9, 3, 9)) @@ ("trans" :> LR(INF, 9, 9, 9, 9, 9, 2, 9)) @@
+          ("conn" :> Open) @@ ("stream" :> Open),
+  !.kinds = {"openconn", "setpeer", "done"}]
+\* b1: allow-listed network with a configured prefix limit that the instance cannot exceed
+AlNEps == {"b1", "n0"}
+FamAllow == [Base EXCEPT
+  !.conns = <<"c1", "c2", "c3">>, !.peers = {"p1"},
+  !.eps = AlNEps, !.epip = [e \in AlNEps |-> e = "b1"], !.epb = ("b1" :> {"np:b1"}) @@ ("n0" :> {}),
+  !.cap = ("np:b1" :> 3), !.allownet = {"b1"},
+  !.lim = ("sys" :> LR(INF, 9, 9, 9, 1, 1, 2, 9)) @@ ("trans" :> LR(INF, 9, 9, 9, 1, 1, 1, 9)) @@
+          ("asys" :> LR(INF, 9, 9, 9, 2, 1, 2, 9)) @@ ("atrans" :> LR(INF, 9, 9, 9, 1, 1, 1, 9)) @@
+          ("peer:p1" :> LR(INF, 9, 9, 9, 2, 2, 2, 9)) @@ ("conn" :> Open) @@ ("stream" :> Open),
+  !.dirs = {"in", "out"},
+  !.kinds = {"openconn", "setpeer", "done", "gc"}]
 \* connections that also hold memory (ReserveForChild moves the whole stat)
 FamConnMem == [Base EXCEPT
   !.conns = <<"c1", "c2">>, !.peers = {"p1"},
@@ -125,16 +139,15 @@ FamCMem == [Base EXCEPT
   !.kinds = {"setpeer", "reserve", "release", "done", "gc"},
   !.threads = <<"t1", "t2">>,
   !.preload = <<OC("c1", "in", FALSE, "n0"), OS("s1", "p1", "in"), BS("sp1", "c1")>>]
-FamCConn == [FamConn EXCEPT
-  !.conns = <<"c1", "c2">>, !.eps = {"a1", "b1", "n0"}, !.dirs = {"in"}, !.fds = {TRUE},
-  !.threads = <<"t1", "t2">>]
+FamCConn == [FamAllow EXCEPT !.conns = <<"c1", "c2">>, !.dirs = {"in"}, !.threads = <<"t1", "t2">>,
+                            !.lim = [FamAllow.lim EXCEPT !["sys"] = LR(INF, 9, 9, 9, 1, 1, 1, 9)]]
 FamCStream == [FamStream EXCEPT
   !.streams = <<"s1", "s2">>, !.dirs = {"in"}, !.peers = {"p1"},
   !.lim = [FamStream.lim EXCEPT !["peer:p1"] = LR(INF, 9, 9, 2, 9, 9, 9, 9)],
   !.threads = <<"t1", "t2">>]
 
 Cfg == CASE Fam = "mem" -> FamMem [] Fam = "memp" -> FamMemP [] Fam = "span" -> FamSpan
-         [] Fam = "conn" -> FamConn [] Fam = "connp" -> FamConnP [] Fam = "connmem" -> FamConnMem
+         [] Fam = "conn" -> FamConn [] Fam = "subnet" -> FamSubnet [] Fam = "allow" -> FamAllow [] Fam = "connmem" -> FamConnMem
          [] Fam = "stream" -> FamStream [] Fam = "streammem" -> FamStreamMem
          [] Fam = "gcmem" -> FamGcMem [] Fam = "alsub" -> FamAlSub [] Fam = "xfer" -> FamXfer
          [] Fam = "cmem" -> FamCMem [] Fam = "cconn" -> FamCConn [] Fam = "cstream" -> FamCStream
